@@ -49,14 +49,7 @@ def r12_4(rep, M, rid):
         else:
             rep.violation(rid, f"get_primitive_system: {p}", f"is fed by {got or None}, not by self.{getter}(): the primitive description "
                           "is not derived from the (normalizer-transformed) conventional one", M.where(fq, calls[0]))
-    # equivalence of the original atoms: crystallographic orbits
-    fq = SA + "._get_spglib_equivalent_atoms_original"
-    fn = M.func(fq)
-    if any(isinstance(x, ast.Attribute) and x.attr == "crystallographic_orbits" for x in ast.walk(fn)):
-        rep.ok(rid, "equivalence of original atoms = crystallographic_orbits of the dataset")
-    else:
-        rep.violation(rid, "_get_spglib_equivalent_atoms_original", "does not read dataset.crystallographic_orbits (equivalent_atoms is "
-                      "relative to the symmetry of the input supercell)", M.where(fq))
+    SR.orbit_source(rep, M, rid)
 
 
 def run(rep, ctx):
@@ -78,6 +71,11 @@ def run(rep, ctx):
         SR.index_spaces(rep, M, "R12.3")
     with rep.guard("R12.4"):
         r12_4(rep, M, "R12.4")
+        SR.letter_spaces(rep, M, "R12.4")
+    rep.rule("R12.5", "every memoised result of the analyzer is dropped by reset(), which set_system() calls (no answers for a previous structure)")
+    with rep.guard("R12.5"):
+        from .. import symrules as _SR
+        _SR.reset_covers_caches(rep, ctx.model, "R12.5")
     rep.floor("R12.1", 230)
     rep.floor("R12.2", 5)
     rep.floor("R12.3", 8)
